@@ -417,6 +417,28 @@ class Check:
     def mismatch(self, stream, case):
         self.mismatches.append({'stream': stream, 'case': case})
 
+    def judge(self, stream, cases, sample_cap=3):
+        """cases: list of (request_line, impl_outcome, meta dict).  Sends the requests to the Lean driver and
+        applies the verdict table: impl vs spec (property), impl vs model (correspondence)."""
+        if not cases:
+            return
+        resp = drive([c[0] for c in cases])
+        ns = 0
+        for (req, got, meta), line in zip(cases, resp):
+            model, spec, cls = split3(line)
+            self.count('stream:' + stream)
+            self.seen((stream, req))
+            case = dict(meta, stream=stream, request=req, impl=got, model=model, spec=spec)
+            if model == 'bad-op':
+                raise RuntimeError('driver rejected request %r' % req)
+            if spec != '-' and got != spec:
+                self.violation(dict(case, why='real code differs from what the property demands'), cls)
+            elif model != 'EUnmodelled' and got != model:
+                self.mismatch(stream, case)
+            if ns < sample_cap and spec != '-':
+                self.sample(case, cap=40)
+                ns += 1
+
     # --- finish
     def finish(self):
         os.makedirs(EVIDENCE_DIR, exist_ok=True)
